@@ -1795,8 +1795,11 @@ namespace detail {
 
                 const auto& expr = args[1].expression();
 
-                std::error_code ec2;
-                Json key1 = expr.evaluate(arg0.at(0), context, ec2); 
+                Json key1 = expr.evaluate(arg0.at(0), context, ec); 
+                if (JSONCONS_UNLIKELY(ec))
+                {
+                    return context.null_value();
+                }
 
                 bool is_number = key1.is_number();
                 bool is_string = key1.is_string();
@@ -1809,7 +1812,11 @@ namespace detail {
                 std::size_t index = 0;
                 for (std::size_t i = 1; i < arg0.size(); ++i)
                 {
-                    reference key2 = expr.evaluate(arg0.at(i), context, ec2); 
+                    reference key2 = expr.evaluate(arg0.at(i), context, ec); 
+                    if (JSONCONS_UNLIKELY(ec))
+                    {
+                        return context.null_value();
+                    }
                     if (!(key2.is_number() == is_number && key2.is_string() == is_string))
                     {
                         ec = jmespath_errc::invalid_type;
@@ -1955,8 +1962,11 @@ namespace detail {
 
                 const auto& expr = args[1].expression();
 
-                std::error_code ec2;
-                Json key1 = expr.evaluate(arg0.at(0), context, ec2); 
+                Json key1 = expr.evaluate(arg0.at(0), context, ec); 
+                if (JSONCONS_UNLIKELY(ec))
+                {
+                    return context.null_value();
+                }
 
                 bool is_number = key1.is_number();
                 bool is_string = key1.is_string();
@@ -1969,7 +1979,11 @@ namespace detail {
                 std::size_t index = 0;
                 for (std::size_t i = 1; i < arg0.size(); ++i)
                 {
-                    reference key2 = expr.evaluate(arg0.at(i), context, ec2); 
+                    reference key2 = expr.evaluate(arg0.at(i), context, ec); 
+                    if (JSONCONS_UNLIKELY(ec))
+                    {
+                        return context.null_value();
+                    }
                     if (!(key2.is_number() == is_number && key2.is_string() == is_string))
                     {
                         ec = jmespath_errc::invalid_type;
@@ -2221,6 +2235,10 @@ namespace detail {
                     if (!(key2.is_number() == is_number && key2.is_string() == is_string))
                     {
                         ec = jmespath_errc::invalid_type;
+                    }
+                    if (ec2 && !ec) // an error raised by the key expression itself
+                    {
+                        ec = ec2;
                     }
                     
                     return key1 < key2;
